@@ -46,6 +46,7 @@ type l2Setup struct {
 	im   *l2.Image
 	env  *l2.Env
 	root string
+	cfg  config.Config
 }
 
 var l2seq struct {
@@ -70,6 +71,18 @@ func newL2(r *vf.Run, bc *blobCase, a *alteration, p l2Params) (*l2Setup, error)
 	if bc.built.ExternalTOC != nil && a.Ext != nil {
 		s.reg.AddBlobAs("reg.test", "img", digest.FromBytes(bc.built.ExternalTOC), a.Ext)
 	}
+	cfg := l2Config(bc, p)
+	s.cfg = cfg
+	env, err := l2.NewEnv(s.reg, s.root, cfg, p.Store, layer.OverlayOpaqueAll, 0)
+	if err != nil {
+		return nil, err
+	}
+	s.env = env
+	return s, nil
+}
+
+// l2Config is the resolver configuration of an L2 case.
+func l2Config(bc *blobCase, p l2Params) config.Config {
 	cfg := config.Config{}
 	cfg.HTTPCacheType = "memory"
 	if p.HTTPDir {
@@ -91,12 +104,7 @@ func newL2(r *vf.Run, bc *blobCase, a *alteration, p l2Params) (*l2Setup, error)
 		cfg.MergeBufferSize = int64(bc.opts.ChunkSize) * 4
 		cfg.MergeWorkerCount = 3
 	}
-	env, err := l2.NewEnv(s.reg, s.root, cfg, p.Store, layer.OverlayOpaqueAll, 0)
-	if err != nil {
-		return nil, err
-	}
-	s.env = env
-	return s, nil
+	return cfg
 }
 
 func (s *l2Setup) close() {
